@@ -66,8 +66,10 @@ CLAIMS = {
              "final dot until the reply was read (with remote_blast). qmail-rspawn report(): every wait status (complete) and, "
              "as a bounded stand-in, every qmail-remote output of <= 8 bytes: success is never relayed unless the first "
              "verdict record says K and the recipient record is neither s nor h.",
-        note="smtpcode() is an arbitrary-code stub in the smtp() proof; connect/DNS phase of main and timeouts (dropped) "
-             "are not covered beyond the flag.",
+        note="smtpcode() is an arbitrary-code stub in the smtp() proof and is itself proved (remote_smtpcode: code = leading "
+             "three bytes, multi-line replies read exactly to the end of their last line, text bounded; reply lines with a LF "
+             "among their first three bytes are outside that proof's domain); connect/DNS phase of main and timeouts "
+             "(dropped) are not covered beyond the flag.",
         design_ref="DESIGN.md section 5 C09"),
     "C08": dict(
         text="Proof (CBMC): each SMTP verb of the unmodified qmail-smtpd.c (HELO/EHLO/RSET, MAIL, RCPT, DATA) is verified as an "
